@@ -131,7 +131,14 @@ fn source(decls: &[Decl]) -> String {
     s.push_str("struct CbS { float4 v; };\n");
     for (i, d) in decls.iter().enumerate() {
         match d {
-            Decl::Other => s.push_str(&format!("struct S{} {{ int x; }};\n", i)),
+            // every kind of root definition that is never bound (one root definition each), chosen by position
+            Decl::Other => s.push_str(&match i % 5 {
+                0 => format!("struct S{} {{ int x; }};\n", i),
+                1 => format!("template<typename T> struct S{} {{ T x; }};\n", i),
+                2 => format!("enum S{} {{ S{}_A }};\n", i, i),
+                3 => format!("void S{}(int x);\n", i),
+                _ => format!("void S{}(int x) {{}}\n", i),
+            }),
             Decl::StaticObject { set, kind, len } => {
                 if let Some(g) = set {
                     s.push_str(&format!("[[rssl::bind_group({})]] ", g));
